@@ -53,7 +53,7 @@ func c11Snap(s gts.Sequence) (out string) {
 func c11Heap(shape string) []gts.Sequence {
 	parts := strings.Split(shape, "/")
 	bshape, tshape, kind := parts[0], parts[1], parts[2]
-	hostRes, guestRes, sibRes := []byte("acgtacgtac"), []byte("GG"), []byte("ttttcccc")
+	hostRes, guestRes, sibRes := []byte("acgtacgtacgtac"), []byte("GG"), []byte("ttttccccggggaa")
 	var hb, gb, sb []byte
 	switch bshape {
 	case "exact":
@@ -75,6 +75,7 @@ func c11Heap(shape string) []gts.Sequence {
 	hostF := []gts.Feature{
 		{Key: "source", Loc: gts.Joined{gts.PartialRange(0, 4, gts.Partial5), gts.PartialRange(5, 10, gts.Partial3)}, Props: gts.Props{{"organism", "o"}}},
 		{Key: "source", Loc: gts.Ordered{gts.PartialRange(0, 3, gts.PartialBoth), gts.Range(6, 10)}, Props: gts.Props{{"organism", "o2"}}},
+		{Key: "source", Loc: gts.Joined{gts.PartialRange(1, 3, gts.Partial5), gts.PartialRange(4, 7, gts.Partial3)}, Props: gts.Props{{"organism", "o3"}}},
 		{Key: "gene", Loc: gts.Range(2, 6), Props: props},
 		{Key: "CDS", Loc: shared, Props: props},
 		{Key: "misc", Loc: gts.Complemented{Location: shared}, Props: gts.Props{{"note", "m"}}},
@@ -110,7 +111,7 @@ func c11Heap(shape string) []gts.Sequence {
 
 func cloneExact(p []byte) []byte { q := make([]byte, len(p)); copy(q, p); return q }
 
-var c11Ops = []string{"insert", "embed", "delete", "erase", "slice", "slice-whole", "slice-wrap", "concat", "concat3", "reverse", "rotate", "rotate-neg",
+var c11Ops = []string{"insert", "embed", "delete", "erase", "slice", "slice-whole", "slice-prefix", "slice-wrap", "concat", "concat3", "reverse", "rotate", "rotate-neg",
 	"complement", "transcribe", "with-info", "with-features", "with-bytes", "with-topology", "repair", "filter", "feature-insert", "locate", "locate-rev", "search", "copy"}
 
 func c11Binary(op string) bool {
@@ -166,6 +167,11 @@ func c11Apply(st c11Step, heap []gts.Sequence) gts.Sequence {
 		return gts.Slice(x, 1, 3)
 	case "slice-whole":
 		return gts.Slice(x, 0, n)
+	case "slice-prefix":
+		if n < 3 {
+			return x
+		}
+		return gts.Slice(x, 0, n-2)
 	case "slice-wrap":
 		if n < 4 {
 			return x
@@ -231,9 +237,12 @@ func c11Apply(st c11Step, heap []gts.Sequence) gts.Sequence {
 
 func c11Eval(c c11Case) (ok bool, sig, detail string) {
 	heap := c11Heap(c.Shape)
+	// the initial snapshots are taken from an identically built twin that no operation ever touches:
+	// the originals are not read (e.g. lazily decoded) before the first operation is applied to them
+	twin := c11Heap(c.Shape)
 	snaps := make([]string, len(heap))
-	for i, v := range heap {
-		snaps[i] = c11Snap(v)
+	for i := range heap {
+		snaps[i] = c11Snap(twin[i])
 	}
 	for k, st := range c.Program {
 		if st.A >= len(heap) || st.B >= len(heap) {
@@ -323,7 +332,7 @@ func init() {
 			rec(nil, 3)
 			// programs one step longer over a core menu: operations applied to the host, the guest or the latest result
 			{
-				core := []string{"insert", "delete", "slice", "slice-whole", "concat", "rotate", "reverse", "feature-insert", "with-features", "with-bytes", "repair", "embed"}
+				core := []string{"insert", "delete", "slice-whole", "slice-prefix", "concat", "rotate", "reverse", "feature-insert", "with-features", "with-bytes"}
 				var rec3 func(cur []c11Step, heapLen int)
 				rec3 = func(cur []c11Step, heapLen int) {
 					if len(cur) == depth+1 {
